@@ -509,10 +509,44 @@ func kindLabel(o *otree) string {
 	return [...]string{"Point", "SimplePoint", "Rect", "LineString", "Polygon", "Feature"}[o.kind]
 }
 
+// object pairs LineString x flat Rect (and Feature-wrapped): both ends of the rectangle on the line,
+// the line bending, straight in two pieces, or leaving after half the way
+func flatRectOnLineObjs(rng *rand.Rand) (*otree, *otree) {
+	x0, y0 := rng.Int63n(20)-10, rng.Int63n(20)-10
+	d := 2 + 2*rng.Int63n(6)
+	var ln []ipt
+	var r [4]int64
+	if rng.Intn(2) == 0 {
+		r = [4]int64{x0, y0, x0 + d, y0}
+		ln = [][]ipt{{{x0, y0}, {x0 + d/2, y0 + 3}, {x0 + d, y0}}, {{x0 - 1, y0}, {x0 + d/2, y0}, {x0 + d + 1, y0}}, {{x0, y0}, {x0 + d/2, y0}, {x0 + d, y0 + 2}}}[rng.Intn(3)]
+	} else {
+		r = [4]int64{x0, y0, x0, y0 + d}
+		ln = [][]ipt{{{x0, y0}, {x0 - 3, y0 + d/2}, {x0, y0 + d}}, {{x0, y0 - 1}, {x0, y0 + d/2}, {x0, y0 + d + 1}}, {{x0, y0}, {x0, y0 + d/2}, {x0 + 2, y0 + d}}}[rng.Intn(3)]
+	}
+	a, b := &otree{kind: 3, line: ln}, &otree{kind: 2, rect: r}
+	if rng.Intn(3) == 0 {
+		b = &otree{kind: 5, kids: []*otree{b}}
+	}
+	if rng.Intn(2) == 0 {
+		a, b = b, a
+	}
+	return a, b
+}
+
 func streamC09(w *W, rng *rand.Rand, tier string) {
 	n := 2500
 	if tier == "thorough" {
 		n = 40000
+	}
+	for it := 0; it < n/10; it++ {
+		a, b := flatRectOnLineObjs(rng)
+		if !objInDom(a) || !objInDom(b) {
+			continue
+		}
+		args := append([]int64{0, int64(rng.Intn(16)) | 16}, a.enc()...)
+		args = append(args, b.enc()...)
+		w.Do(60, args, true)
+		w.count("family:flat-rect-on-line")
 	}
 	for it := 0; it < n; it++ {
 		sc := int64(rng.Intn(3))
